@@ -524,3 +524,63 @@ func RMakeArg(c *core.Ctx) {
 		c.OK("regexp2 / no allocation is sized by a caller's count", token.NoPos, "no such make()")
 	}
 }
+
+// ---------------------------------------------------------------------------
+// R-ATOMREP: a repeated atomic loop is not an atomic loop with multiplied
+// bounds.  reduceRep folds (x{a,b}){c,d} into x{ac,bd}.  For an atomic inner
+// loop every iteration keeps what it took: (?>a{1,2}){2} on "aa" fails (the
+// first iteration takes both), a{2,4} does not.  The fold is sound only with
+// at most one mandatory outer iteration or an inner loop that may match
+// nothing, so the arm that accepts the atomic kinds must be conditional on the
+// bounds.
+// ---------------------------------------------------------------------------
+
+func RAtomRep(c *core.Ctx) {
+	c.Rule("R-ATOMREP", "in reduceRep the case arm that accepts atomic single-character loop kinds (Oneloopatomic, Notoneloopatomic, Setloopatomic) as foldable into the outer repetition does not set `valid` to the constant true: its value depends on the bounds (outer minimum <= 1 or inner minimum == 0)", 1)
+	p := c.P
+	syn := p.Pkg("syntax")
+	info := syn.TypesInfo
+	fd, _ := p.DeclOf(p.LookupFunc("syntax", "RegexNode.reduceRep"))
+	if fd == nil {
+		c.Anchor("syntax.RegexNode.reduceRep")
+		return
+	}
+	c.Visit("syntax.(*RegexNode).reduceRep")
+	atomic := map[int64]string{}
+	for _, nm := range []string{"NtOneloopatomic", "NtNotoneloopatomic", "NtSetloopatomic"} {
+		if v, ok := constInScope(syn.Types, nm); ok {
+			atomic[v] = nm
+		}
+	}
+	n := 0
+	ast.Inspect(fd.Body, func(x ast.Node) bool {
+		cc, ok := x.(*ast.CaseClause)
+		if !ok {
+			return true
+		}
+		kind := ""
+		for _, e := range cc.List {
+			if v, ok := core.ConstInt(info, e); ok && atomic[v] != "" {
+				kind = atomic[v]
+			}
+		}
+		if kind == "" {
+			return true
+		}
+		for _, st := range cc.Body {
+			as, ok := st.(*ast.AssignStmt)
+			if !ok || len(as.Lhs) != 1 || len(as.Rhs) != 1 {
+				continue
+			}
+			n++
+			tv, isConst := info.Types[as.Rhs[0]]
+			unconditional := isConst && tv.Value != nil && tv.Value.String() == "true"
+			c.Check(!unconditional, fmt.Sprintf("reduceRep / folding an atomic inner loop (#%d) depends on the bounds", n), as.Pos(),
+				"%s = true for %s regardless of the iteration counts: (?>a{1,2}){2} becomes a{2,4} and matches \"aa\", (?>b+){2,} becomes b{2,} and matches \"bb\"; with two or more mandatory iterations of an inner loop that must consume something the repeated atomic loop fails there", types.ExprString(as.Lhs[0]), kind)
+		}
+		return true
+	})
+	if n == 0 {
+		c.OK("reduceRep / atomic inner loops are not folded", fd.Pos(), "no case arm accepts an atomic single-character loop kind")
+	}
+}
